@@ -82,6 +82,18 @@ def run_impl(ctx, impl, jobs):
                 d = dict(x.split("=", 1) for x in w[2:])
                 d["err"] = unhx(d.get("err", "-"))
                 out[w[1]] = d
+    # a wall-clock budget of a few seconds means little on a loaded machine: a case that was killed is run again, alone, with a budget
+    # of 40 s, and only counts as not returning if it is killed again
+    slow = [j for j in jobs if out.get(j[0], {}).get("st") == "timeout"][:40]
+    if slow:
+        inp = "\n".join(case_line(c, m, f) for c, m, f in slow) + "\n"
+        p = subprocess.run(["timeout", "-s", "KILL", "3000", impl, "serve", os.path.join(ctx.scratch, "wdslow")], input=inp.encode(), stdout=subprocess.PIPE,
+                           stderr=subprocess.PIPE, env=dict(os.environ, LEX_H_TIMEOUT="40", **SANENV))
+        for l in p.stdout.decode("latin-1").splitlines():
+            w = l.split()
+            if len(w) >= 3 and w[0] == "R":
+                d = dict(x.split("=", 1) for x in w[2:]); d["err"] = unhx(d.get("err", "-"))
+                out[w[1]] = d
     return out
 
 
@@ -482,6 +494,11 @@ def directed_cases():
     add("alias-dangling", ok + b'alias "all" "n[1-4]"\n')
     add("alias-dup", ok + b'alias "a" "n1"\nalias "a" "n2"\n')
     add("alias-bad-range", ok + b'alias "a" "n[1"\n')
+    # host lists with a closing bracket and no opening one (hostlist_create refuses them; a pre-check that only looks for '[' would not)
+    for bad in (b"n1]", b"n1,n2]", b"]", b"n]1", b"n1],n2"):
+        add("node-list-unopened:" + bad.decode(), SPEC_OK + b'device "d0" "s" "/bin/cat |&"\nnode "' + bad + b'" "d0"\n')
+        add("plug-list-unopened:" + bad.decode(), SPEC_OK + b'device "d0" "s" "/bin/cat |&"\nnode "n1" "d0" "' + bad + b'"\n')
+        add("alias-unopened:" + bad.decode(), ok + b'alias "a" "' + bad + b'"\n')
     add("alias-before-nodes", SPEC_OK + b'alias "a" "n1"\n' + DEVNODE)
     add("listen", ok + b'listen "127.0.0.1:10101"\nlisten "garbage"\n')
     for t in (b"tcpwrappers", b"tcpwrappers yes", b"tcpwrappers no", b"tcpwrappers }", b"tcpwrappers no tcpwrappers"):
